@@ -154,8 +154,9 @@ CHECKS['C03'] = (
     '.bz2 + extension autodetection and convert_* against direct export. One whole section is modelled and proved: the NWChem electron basis at token level (head lines / number rows, the reader\'s own partition test): '
     'nwchem_electron_roundtrip = read(write(els)) = els for every list of elements with distinct Z in 1..118 and rectangular shells with l < 25, over the library\'s '
     'own symbol and letter tables (nwchem_symbols_roundtrip, nwchem_am_roundtrip); the two models are compared with the real writer (token lines equal) and the real '
-    '_parse_electron_lines on written and on 13 kinds of malformed streams (verdict and data). Partial: the other section parsers (ECP section, the 13 other formats) are '
-    'not modelled; they are covered by the verified checker on explored inputs only.',
+    '_parse_electron_lines on written and on 13 kinds of malformed streams (verdict and data). The NWChem ECP section is modelled the same way: nwchem_ecp_readback (every element, electron count and potential comes back; the first, ul, potential gets (highest other momentum)+1), '
+    'nwchem_ecp_faithful_iff (faithful exactly when the highest momentum is one above the next), nwchem_ecp_gap_limit / nwchem_ecp_single_limit (the format\'s limit proved on the model by kernel evaluation and '
+    'replayed on the library: known finding F14). Partial: the section parsers of the 13 other formats are not modelled; they are covered by the verified checker on explored inputs only.',
     BASE_NOTE + 'contiguous momenta up to l = 11 in generated inputs (positional formats cannot express a gap; letter classes of some readers end at l = 11).', '6/C03')
 
 CHECKS['C11'] = (
